@@ -218,6 +218,9 @@ dnstxt_records(char **out, const char *host)
 /**
  * @brief query DNS for TXT entries and concat them to a single string
  *
+ * Control characters in the records are replaced by '?' so the result can
+ * be used as text of a SMTP reply.
+ *
  * @param out TXT record of host will be stored here, memory is malloced
  * @param host name of host to look up
  * @retval 0 success
@@ -234,6 +237,15 @@ dnstxt(char **out, const char *host)
 		free(sa.s);
 		*out = NULL;
 		return r;
+	}
+
+	/* The text is passed on to the SMTP client in replies: whatever the DNS
+	 * sent, it must not contain line breaks or other control characters. */
+	for (size_t k = 0; k < sa.len; k++) {
+		const unsigned char c = sa.s[k];
+
+		if (((c < ' ') && (c != '\t')) || (c == 127))
+			sa.s[k] = '?';
 	}
 
 	r = stralloc_0(&sa);
